@@ -49,6 +49,8 @@ def trusted_base_scan():
                     cur = line[4:].strip()
                 elif "external_body" in line and line.startswith("@attr") and cur:
                     out.append("function left unverified (external_body; contract, if any, assumed): %s  [%s]" % (cur, name))
+                elif line.startswith("@split-at") and cur:
+                    out.append("proof case split (one Verus query per marked branch; the other marked branches are cut with assume(false) in that query and verified in their own): %s  [%s]" % (cur, name))
                 elif line.startswith("@drop-body") and cur:
                     out.append("body dropped from the verified trait (trait-cycle cut): %s  [%s]" % (cur, name))
         for m in re.finditer(r"\b(admit|assume)\s*\(", txt):
@@ -122,14 +124,13 @@ def main():
     units = []
 
     import units as U
-    for unit in cfg["units"]:
-        kind = unit["kind"]
-        if a.tier == "quick" and unit.get("tier") == "thorough":
-            continue
-        res = getattr(U, "run_" + kind)(pid, unit, a.tier, seed, keep=a.keep)
-        units.append(res)
-        violations += res.get("violations", [])
-        undecided += res.get("undecided", [])
+    from concurrent.futures import ThreadPoolExecutor
+    todo = [u for u in cfg["units"] if not (a.tier == "quick" and u.get("tier") == "thorough")]
+    with ThreadPoolExecutor(max_workers=max(1, len(todo))) as ex:
+        for res in ex.map(lambda u: getattr(U, "run_" + u["kind"])(pid, u, a.tier, seed, keep=a.keep), todo):
+            units.append(res)
+            violations += res.get("violations", [])
+            undecided += res.get("undecided", [])
 
     # known findings filter
     kf = [k for k in known.get("findings", []) if k["property"] == pid]
@@ -182,6 +183,8 @@ def main():
         cov["bounded_harnesses"] += r.get("bounded", [])
         cov["units"].append({k: r.get(k) for k in ("kind", "name", "obligations", "discharged", "smt_time_s", "wall_s", "verified_functions", "backend", "rlimit", "note", "isolated_runs", "lemmas") if k in r})
     cov["trusted_base"] = sorted(set(cov["trusted_base"]))
+    if cfg.get("explanation"):
+        cov["explanation"] = cfg["explanation"]
     cov["known_findings_reported"] = [k["obligation"] for k, _ in known_hits]
     cov["undecided"] = [u.get("what") for u in undecided]
     evidence["coverage"] = cov
